@@ -25,6 +25,9 @@ pub enum REv {
     Err,
     /// this read is interrupted (ErrorKind::Interrupted); the stream is intact and goes on with the next entry
     Intr,
+    /// not ready until that many octets have been written to this stream's other direction (a peer that sends the rest only
+    /// after it has seen the answer to what it sent before)
+    WaitOut(usize),
 }
 
 #[derive(Debug, Clone)]
@@ -37,6 +40,8 @@ pub enum WEv {
     Err,
     /// this write is interrupted (ErrorKind::Interrupted) without taking anything
     Intr,
+    /// marker at the head of a script (`v`): the writer reports `is_write_vectored()`
+    Gather,
 }
 
 #[derive(Default)]
@@ -48,6 +53,8 @@ pub struct Shared {
     /// how many times the writer reported its failure (the first report IS the failure; a further one means that a write
     /// was attempted on a stream whose write side had already failed)
     pub write_failures: usize,
+    /// the reader, parked until the writer has taken more
+    pub read_waker: Option<std::task::Waker>,
 }
 
 /// A reader that keeps polling after end of stream / a writer polled over and over without progress is a
@@ -61,11 +68,15 @@ pub struct ScriptStream {
     pub sh: Arc<Mutex<Shared>>,
     pub rsleep: Option<Pin<Box<tokio::time::Sleep>>>,
     pub wsleep: Option<Pin<Box<tokio::time::Sleep>>>,
+    /// a writer that says it gathers (`is_write_vectored`, as `TcpStream` does): a caller may hand it several slices at once
+    pub gathers: bool,
 }
 
 impl ScriptStream {
-    pub fn new(r: VecDeque<REv>, w: VecDeque<WEv>, sh: Arc<Mutex<Shared>>) -> ScriptStream {
-        ScriptStream { eof_polls: 0, r, w, sh, rsleep: None, wsleep: None }
+    pub fn new(r: VecDeque<REv>, mut w: VecDeque<WEv>, sh: Arc<Mutex<Shared>>) -> ScriptStream {
+        let gathers = matches!(w.front(), Some(WEv::Gather));
+        w.retain(|e| !matches!(e, WEv::Gather));
+        ScriptStream { eof_polls: 0, r, w, sh, rsleep: None, wsleep: None, gathers }
     }
 }
 
@@ -109,6 +120,18 @@ impl AsyncRead for ScriptStream {
                 Poll::Ready(Err(std::io::Error::new(std::io::ErrorKind::Interrupted, "interrupted")))
             }
             Some(REv::Sleep(_)) => unreachable!(),
+            Some(REv::WaitOut(n)) => {
+                let n = *n;
+                let mut sh = me.sh.lock().unwrap();
+                if sh.received.len() >= n {
+                    drop(sh);
+                    me.r.pop_front();
+                    cx.waker().wake_by_ref();
+                } else {
+                    sh.read_waker = Some(cx.waker().clone());
+                }
+                Poll::Pending
+            }
             Some(REv::Chunk(bs)) => {
                 if bs.is_empty() {
                     me.r.pop_front();
@@ -144,7 +167,11 @@ impl AsyncWrite for ScriptStream {
         }
         match me.w.front() {
             None => {
-                me.sh.lock().unwrap().received.extend_from_slice(buf);
+                let mut sh = me.sh.lock().unwrap();
+                sh.received.extend_from_slice(buf);
+                if let Some(w) = sh.read_waker.take() {
+                    w.wake();
+                }
                 Poll::Ready(Ok(buf.len()))
             }
             Some(WEv::Err) => {
@@ -161,11 +188,15 @@ impl AsyncWrite for ScriptStream {
                 me.sh.lock().unwrap().write_failures += 1;
                 Poll::Ready(Err(std::io::Error::new(std::io::ErrorKind::Interrupted, "interrupted")))
             }
-            Some(WEv::Sleep(_)) => unreachable!(),
+            Some(WEv::Sleep(_)) | Some(WEv::Gather) => unreachable!(),
             Some(WEv::Accept(k)) => {
                 let n = (*k).min(buf.len());
                 me.w.pop_front();
-                me.sh.lock().unwrap().received.extend_from_slice(&buf[..n]);
+                let mut sh = me.sh.lock().unwrap();
+                sh.received.extend_from_slice(&buf[..n]);
+                if let Some(w) = sh.read_waker.take() {
+                    w.wake();
+                }
                 Poll::Ready(Ok(n))
             }
             Some(WEv::Budget(_)) => {
@@ -178,7 +209,11 @@ impl AsyncWrite for ScriptStream {
                         Some(WEv::Budget(rem)) => {
                             let n = (*rem).min(buf.len());
                             *rem -= n;
-                            me.sh.lock().unwrap().received.extend_from_slice(&buf[..n]);
+                            let mut sh = me.sh.lock().unwrap();
+                            sh.received.extend_from_slice(&buf[..n]);
+                            if let Some(w) = sh.read_waker.take() {
+                                w.wake();
+                            }
                             return Poll::Ready(Ok(n));
                         }
                         Some(WEv::Err) => {
@@ -200,6 +235,18 @@ impl AsyncWrite for ScriptStream {
     fn poll_shutdown(self: Pin<&mut Self>, _cx: &mut Context<'_>) -> Poll<std::io::Result<()>> {
         Poll::Ready(Ok(()))
     }
+    fn is_write_vectored(&self) -> bool {
+        self.gathers
+    }
+    fn poll_write_vectored(self: Pin<&mut Self>, cx: &mut Context<'_>, bufs: &[std::io::IoSlice<'_>]) -> Poll<std::io::Result<usize>> {
+        if !self.gathers {
+            // the default of the trait: the first non-empty slice
+            let buf = bufs.iter().find(|b| !b.is_empty()).map_or(&[][..], |b| &**b);
+            return self.poll_write(cx, buf);
+        }
+        let joined: Vec<u8> = bufs.iter().flat_map(|b| b.iter().copied()).collect();
+        self.poll_write(cx, &joined)
+    }
 }
 
 pub fn parse_rscript(t: &mut Toks) -> PResult<VecDeque<REv>> {
@@ -217,6 +264,8 @@ pub fn parse_rscript(t: &mut Toks) -> PResult<VecDeque<REv>> {
                     REv::Chunk(unhex(&format!("x{}", h))?)
                 } else if let Some(h) = s.strip_prefix("t:") {
                     REv::Sleep(u64::from_str_radix(h, 16).map_err(|e| e.to_string())?)
+                } else if let Some(h) = s.strip_prefix("w:") {
+                    REv::WaitOut(usize::from_str_radix(h, 16).map_err(|e| e.to_string())?)
                 } else {
                     return Err(format!("rev {}", s));
                 }
@@ -235,6 +284,7 @@ pub fn parse_wscript(t: &mut Toks) -> PResult<VecDeque<WEv>> {
             "p" => WEv::Pending,
             "x" => WEv::Err,
             "i" => WEv::Intr,
+            "v" => WEv::Gather,
             _ => {
                 if let Some(h) = s.strip_prefix("a:") {
                     WEv::Accept(usize::from_str_radix(h, 16).map_err(|e| e.to_string())?)
